@@ -17,6 +17,12 @@ def _alarm(sig, frm):
     raise Hang()
 
 
+def _zlib_complete(raw):
+    d = zlib.decompressobj()
+    d.decompress(raw)
+    return d.eof
+
+
 def stream(seed, rounds):
     from joblib.compressor import BinaryGzipFile, BinaryZlibFile
     rnd = random.Random(seed)
@@ -41,7 +47,15 @@ def stream(seed, rounds):
             w.close()
             raw = buf.getvalue()
             cases += 1
-            if dec(raw) != payload:
+            try:
+                back = dec(raw)
+                # zlib.decompress(b"") is b"": a stream without its end marker must not count as a stream
+                complete = bool(raw) and (cls is BinaryGzipFile or _zlib_complete(raw))  # gzip.decompress raises EOFError on a non-empty stream without trailer
+            except (zlib.error, EOFError, OSError) as e:
+                return dict(violation=True, cases=cases, what="standard decoder rejects what was written: %r" % (e,), witness=[seed, r, cls.__name__, n])
+            if not complete:
+                return dict(violation=True, cases=cases, what="the written stream has no end-of-stream marker", witness=[seed, r, cls.__name__, n])
+            if back != payload:
                 return dict(violation=True, cases=cases, what="standard decoder does not give the written bytes back", witness=[seed, r, cls.__name__, n])
             # read side: random op sequences vs reference
             f = cls(io.BytesIO(raw), "rb")
